@@ -710,10 +710,23 @@ def opTableCoord (j : Json) : R Json := do
     | _ => .error "expected [start, stop]"
   let grids ← field j "grids" >>= asList (asList asRat)
   let sliced := List.zipWith (fun t (se : Option Int × Option Int) => sliceTable t se.1 se.2) tables slices
+  -- chains of slices of meshed SkyCoord components: [{"n": length, "items": [[s, e], ...]}, ...]
+  let asSE := fun (x : Json) => do
+    let a ← asArr x
+    match a with
+    | [s, e] => do pure ((← asOptInt s), (← asOptInt e))
+    | _ => .error "expected [start, stop]"
+  let chains ← match optField j "meshChains" with
+    | none => pure []
+    | some v => asList (fun c => do
+        let n ← field c "n" >>= asNat
+        let items ← field c "items" >>= asList asSE
+        pure (meshChain n items)) v
   pure <| Json.mkObj [
     ("values", listJson (fun p => listJson (optJson ratJson) (joinedP2W tables p)) pix),
     ("inv", Json.arr (List.zipWith (fun t ys => listJson (optJson ratJson) (ys.map (invTable t))) tables inv).toArray),
     ("sliced", listJson (listJson ratJson) sliced),
+    ("meshChains", listJson (fun (p : Nat × Nat) => Json.arr #[natJson p.1, natJson p.2]) chains),
     ("interpolated", Json.arr (List.zipWith (fun t g => listJson (optJson ratJson) (interpolateTable t g)) tables grids).toArray)]
 
 /-! ## op `arith` (C10) -/
